@@ -2406,6 +2406,97 @@ end Goml.Gen
 """)
 
 EXTRACTORS += [unify_gen_shape]
+# ---------------------------------------------------------------- gopp: the Go printer's tables (go_pprint.rs)
+def gopp_char_lit(lit):
+    """a Rust char literal body (between the quotes) -> the character"""
+    table = {"\\n": "\n", "\\r": "\r", "\\t": "\t", "\\\\": "\\", "\\'": "'", '\\"': '"', "\\0": "\0"}
+    if lit in table:
+        return table[lit]
+    if len(lit) == 1:
+        return lit
+    raise Exception(f"go_pprint.rs: char literal of unexpected shape: {lit!r}")
+
+def gopp_str_lit(lit):
+    """a Rust string literal body (no raw strings) -> the string"""
+    out, i = [], 0
+    while i < len(lit):
+        if lit[i] == "\\":
+            out.append(gopp_char_lit(lit[i:i + 2]))
+            i += 2
+        else:
+            out.append(lit[i])
+            i += 1
+    return "".join(out)
+
+def gopp_lean_char(c):
+    esc = {"\n": "\\n", "\r": "\\r", "\t": "\\t", "\\": "\\\\", "'": "\\'", '"': '"'}
+    return "'" + esc.get(c, c) + "'"
+
+def gopp_tables():
+    pp = src("crates/compiler/src/pprint/go_pprint.rs")
+    # -- escape_go_string: the literal arms, then the control-character arm, then the pass-through arm
+    esc = block_after(pp, r"fn escape_go_string\(value: &str\) -> String\s*\{", "escape_go_string")
+    arms = block_after(esc, r"match ch\s*\{", "escape_go_string match")
+    lits = re.findall(r"'((?:\\.|[^'\\]))'\s*=>\s*escaped\.push_str\(\"((?:\\.|[^\"\\])*)\"\)", arms)
+    if len(lits) != 5:
+        raise Exception(f"go_pprint.rs escape_go_string: expected 5 literal arms, found {len(lits)}")
+    rows = [(gopp_char_lit(c), gopp_str_lit(s)) for c, s in lits]
+    if not re.search(r"other if other\.is_control\(\)\s*=>\s*\{\s*escaped\.push_str\(&format!\(\"\\\\u\{:04x\}\", other as u32\)\);\s*\}", arms):
+        raise Exception("go_pprint.rs escape_go_string: the control-character arm is no longer `\\\\u{:04x}` of `is_control()`")
+    if not re.search(r"other\s*=>\s*escaped\.push\(other\)", arms):
+        raise Exception("go_pprint.rs escape_go_string: the pass-through arm is gone")
+    if arms.count("=>") != 7:
+        raise Exception("go_pprint.rs escape_go_string: arms of an unexpected shape")
+    # -- go_float_literal
+    fl = block_after(pp, r"fn go_float_literal\(value: f64\) -> String\s*\{", "go_float_literal")
+    m = re.search(r"let text = value\.to_string\(\);\s*if !value\.is_finite\(\) \|\| text\.contains\(\['\.', 'e', 'E'\]\)\s*\{\s*text\s*\}\s*else\s*\{\s*format!\(\"\{\}([^\"]*)\", text\)", fl)
+    if not m:
+        raise Exception("go_pprint.rs go_float_literal: shape changed")
+    suffix = m.group(1)
+    # -- operators
+    def docs(impl):
+        b = block_after(pp, r"impl " + impl + r"\s*\{", f"go_pprint impl {impl}")
+        f = block_after(b, r"fn doc\(&self\) -> RcDoc<'_, \(\)>\s*\{", f"{impl}::doc")
+        rows = re.findall(impl + r"::(\w+)\s*=>\s*RcDoc::text\(\"([^\"]*)\"\)", f)
+        if f.count("=>") != len(rows):
+            raise Exception(f"go_pprint.rs: {impl}::doc has arms of an unexpected shape")
+        return rows
+    bins, uns = docs("GoBinaryOp"), docs("GoUnaryOp")
+    if len(bins) != 12 or len(uns) != 4:
+        raise Exception(f"go_pprint.rs: expected 12 binary and 4 unary Go operators, found {len(bins)}/{len(uns)}")
+    # -- go_type_name: the primitive spellings
+    tn = block_after(pp, r"fn go_type_name\(ty: &GoType\) -> String\s*\{", "go_type_name")
+    prim = re.findall(r"GoType::(\w+)\s*=>\s*\"([^\"]*)\"\.to_string\(\)", tn)
+    if len(prim) != 14:
+        raise Exception(f"go_pprint.rs go_type_name: expected 14 fixed spellings, found {len(prim)}")
+    # -- every fixed text and every Doc combinator the printer uses (no soft break may appear unnoticed)
+    body = pp[pp.index("fn go_type_doc"):]
+    texts = sorted(set(gopp_str_lit(t) for t in re.findall(r"RcDoc::text\(\"((?:\\.|[^\"\\])*)\"\)", body)))
+    combs = sorted(set(re.findall(r"RcDoc::(\w+)\(", pp)) | set(re.findall(r"\)\s*\.(\w+)\(", body)) - {"to_doc", "iter", "map", "unwrap", "render", "is_some", "doc", "clone"})
+    nests = sorted(set(re.findall(r"\.nest\((\d+)\)", pp)))
+    widths = sorted(set(re.findall(r"fn to_pretty\(&self, goenv: &GlobalGoEnv, (\w+): usize\)", pp)))
+    if nests != ["4"] or widths != ["width"]:
+        raise Exception(f"go_pprint.rs: nest amounts {nests} / to_pretty signature changed")
+    L = [HEADER, "namespace Goml.Gen.GoPrintTables\n"]
+    L.append("/-- go_pprint.rs `escape_go_string`: the arms with a fixed two-character escape, in source order; every other `char::is_control()` character is written `\\\\u{:04x}`, everything else as itself -/")
+    L.append("def escapes : List (Char × List Char) := [" + ", ".join("(" + gopp_lean_char(c) + ", [" + ", ".join(gopp_lean_char(x) for x in s) + "])" for c, s in rows) + "]")
+    L.append("/-- digits of Rust's `{:x}` -/")
+    L.append("def hexDigits : List Char := [" + ", ".join(gopp_lean_char(c) for c in "0123456789abcdef") + "]")
+    L.append("/-- go_pprint.rs `go_float_literal`: appended when the `{}` text of the f64 has no `.`/`e`/`E` -/")
+    L.append(f"def integralSuffix : String := {lstr(suffix)}")
+    L.append(lpairs("binSyms", bins, "go_pprint.rs GoBinaryOp::doc").rstrip())
+    L.append(lpairs("unSyms", uns, "go_pprint.rs GoUnaryOp::doc").rstrip())
+    L.append(lpairs("typeNames", prim, "go_pprint.rs go_type_name: fixed spellings").rstrip())
+    L.append("/-- every distinct `RcDoc::text(\"…\")` literal from `go_type_doc` to the end of go_pprint.rs, sorted -/")
+    L.append("def textLiterals : List String := [" + ", ".join(lstr(t) for t in texts) + "]")
+    L.append("/-- every `RcDoc::<ctor>(` and chained `.method(` of the Doc algebra the printer uses, sorted -/")
+    L.append("def docCombinators : List String := [" + ", ".join(lstr(t) for t in combs) + "]")
+    L.append("/-- the only `nest` amount -/")
+    L.append("def nestAmount : Nat := 4")
+    L.append("\nend Goml.Gen.GoPrintTables\n")
+    write_if_changed("GoPrintTables.lean", "\n".join(L))
+
+EXTRACTORS += [gopp_tables]
 
 if __name__ == "__main__":
     main()
